@@ -1194,6 +1194,58 @@ def zero_case(rng, i):
     return c
 
 
+# ------------------------------------------------------------------------------------------------
+# long sequences: seconds of silence before same-axis gradient events that follow each other one to a few raster
+# intervals apart.  Expectation by the time-shift theorem (C20_pns_time_shift): m leading silent raster intervals give m
+# leading zeros followed by the prediction of the short sequence (which the exact oracle evaluates).
+def long_case(rng, i):
+    ax = rng.choice(AX)
+    gap = [1, 2, 1, 3][i % 4]
+    blocks = []
+    for bi in range(rng.randint(2, 3)):
+        e = gen_event(rng, 1)
+        while e['k'] == 'ext':
+            e = gen_event(rng, 1)
+        e['delay'] = gap if bi else rng.choice([0, 2])
+        ev = {ax: e}
+        for ch in AX:
+            if ch != ax and rng.random() < 0.4:
+                o = gen_event(rng, 2)
+                if o['k'] != 'ext' and ev_dur(o) <= ev_dur(e):
+                    ev[ch] = o
+        blocks.append({'delay': 0, 'ev': ev})           # the block ends with the event of the axis under test
+    lead = gap * 120000 + rng.randint(0, 60000)          # 1.2 - 4.2 s at 10 us: gap <= 1e-5 * (absolute time)
+    case = {'stream': 'long', 'raster_us': 10, 'gamma': rng.choice(GAMMAS),
+            'hw': {a: gen_hw_axis(rng, 0.12) for a in AX}, 'blocks': blocks}
+    return case, lead, gap
+
+
+def run_long(ctx, case, lead):
+    tctx = _Tagged(ctx, '@long')
+    full = dict(case, blocks=[{'delay': lead, 'ev': {}}] + case['blocks'], lead=lead)
+    rec = dict(case, lead=lead)
+    try:
+        _, ok, norm, comp, t = run_impl(full)
+    except Exception as e:  # noqa: BLE001
+        ctx.fail('C20/raises@long', rec, {'exception': repr(e)})
+        return
+    ctx.evaluated(('l', repr(rec)), nontrivial=True)
+    ctx.count('stream.long')
+    nt = last_grad_end(case)
+    r = case['raster_us'] / 1e6
+    if len(norm) != lead + nt or comp.shape != (lead + nt, 3) or len(t) != lead + nt:
+        ctx.fail('C20/count@long', rec, {'expected_samples': lead + nt, 'pns_norm': len(norm), 't': len(t)})
+        return
+    if np.any(comp[:lead] != 0) or np.any(norm[:lead] != 0):
+        ctx.fail('C20/silence-not-zero@long', rec, {'max_abs': float(np.abs(comp[:lead]).max())})
+        return
+    if abs(t[0] - 0.5 * r) > 1e-12 or abs(t[-1] - (lead + nt - 0.5) * r) > 1e-10:
+        ctx.fail('C20/time-axis@long', rec, {'t0': float(t[0]), 't_last': float(t[-1])})
+        return
+    tail_t = (np.arange(nt) + 0.5) * r                 # the tail's own time axis (absolute one checked above)
+    oracle(tctx, rec, ok, norm[lead:], comp[lead:], tail_t)
+
+
 def file_case(rng, i):
     c = gen_case(rng, True, 'file')
     c['raster_us'] = [20, 5][i % 2]
@@ -1237,6 +1289,12 @@ def run(ctx):
     for i in range({'quick': 8, 'thorough': 200}[ctx.tier]):
         c = file_case(rng_f, i)
         one_case(ctx, c, False, 1)
+    # long sequences (seconds of silence, then same-axis events a few raster intervals apart)
+    rng_l = ctx.rng('long')
+    for i in range({'quick': 3, 'thorough': 40}[ctx.tier]):
+        c, lead, gap = long_case(rng_l, i)
+        ctx.count('long.gap%d' % gap)
+        run_long(ctx, c, lead)
     # zero-amplitude gradient events at the end / start / alone on an axis / everywhere
     rng_z = ctx.rng('zero')
     for i in range({'quick': 14, 'thorough': 300}[ctx.tier]):
@@ -1272,6 +1330,9 @@ def replay(ctx, case):
         return {'stream': case['stream']}
     if case.get('stream') in ('filter', 'threshold'):
         return {'note': 'stream case; re-run ./check C20'}
+    if case.get('stream') == 'long':
+        run_long(ctx, {k: v for k, v in case.items() if k != 'lead'}, case['lead'])
+        return {'stream': 'long', 'lead': case['lead']}
     if case.get('stream') == 'hist':
         run_history(ctx, case['history'])
         return {'stream': 'hist', 'ops': [o[0] for o in case['history']['ops']], 'warm': case['history']['warm'],
